@@ -142,10 +142,18 @@ func runC04(c *Ctx, faults bool) {
 	}
 	conc := []string{"3", "1", "8"}[t.Choose(3, "concurrency")]
 	cloneRef := h.Branches[t.Choose(len(h.Branches), "clone-branch")]
-	cloneOut, code := w.GitEnv(w.Root, env, "clone", "-q", "-b", cloneRef,
+	// the clone may borrow from a reference repository whose LFS store holds
+	// every object (git clone --reference: .git/objects/info/alternates)
+	cloneArgs := []string{"clone", "-q", "-b", cloneRef}
+	if t.Bool(1, 4, "clone-with-reference-repository") {
+		cloneArgs = append(cloneArgs, "--reference", u1)
+		c.refStore = LocalObjects(filepath.Join(u1, ".git"))
+		c.Probe("clone-with-reference-repository")
+	}
+	cloneOut, code := w.GitEnv(w.Root, env, append(cloneArgs,
 		"-c", "lfs.url="+w.LFSURL(), "-c", "lfs.transfer.maxretries=2", "-c", "lfs.transfer.maxretrydelay=0",
 		"-c", "lfs.concurrenttransfers="+conc, "-c", "lfs.locksverify=false",
-		"-c", "lfs.transfer.batchsize="+[]string{"100", "1", "2"}[t.Choose(3, "batch-size")], remote, u2)
+		"-c", "lfs.transfer.batchsize="+[]string{"100", "1", "2"}[t.Choose(3, "batch-size")], remote, u2)...)
 	g2 := filepath.Join(u2, ".git")
 	if code != 0 {
 		c.Probe("clone-failed")
@@ -263,7 +271,37 @@ func c04Op(c *Ctx, w *World, h *Hist, u2 string, faults bool) {
 		f.exc = []string{"dir"}
 		fargs = []string{"-I", "*.bin", "-X", "dir"}
 	}
+	// a filter may also come from the configuration; a flag on the command
+	// line replaces only the setting it names
 	kind := t.Choose(8, "c04-op")
+	if (kind == 0 || kind == 1 || kind == 3 || kind == 4) && t.Bool(1, 3, "configured-filter-besides-flags") {
+		// one setting configured, the other given as a flag, overlapping:
+		// the flag replaces only the setting it names
+		f = pathFilter{}
+		switch t.Choose(4, "configured-and-flag") {
+		case 0:
+			w.MustGit(u2, "config", "lfs.fetchexclude", "sub")
+			f.inc, f.exc = []string{"dir"}, []string{"sub"}
+			fargs = []string{"-I", "dir"}
+		case 1:
+			w.MustGit(u2, "config", "lfs.fetchexclude", "dir")
+			f.inc, f.exc = []string{"*.bin"}, []string{"dir"}
+			fargs = []string{"-I", "*.bin"}
+		case 2:
+			w.MustGit(u2, "config", "lfs.fetchinclude", "*.bin")
+			f.inc, f.exc = []string{"*.bin"}, []string{"dir"}
+			fargs = []string{"-X", "dir"}
+		default:
+			w.MustGit(u2, "config", "lfs.fetchexclude", "*.dat")
+			f.inc, f.exc = []string{"e.dat"}, []string{"*.dat"}
+			fargs = []string{"-I", "e.dat"}
+		}
+		c.Probe("configured-filter-besides-flags")
+		defer func() {
+			w.Git(u2, "config", "--unset", "lfs.fetchexclude")
+			w.Git(u2, "config", "--unset", "lfs.fetchinclude")
+		}()
+	}
 	switch kind {
 	case 0, 1: // git lfs fetch [ref]
 		ref := "HEAD"
@@ -448,8 +486,12 @@ func c04Op(c *Ctx, w *World, h *Hist, u2 string, faults bool) {
 			if kind == 5 {
 				// git lfs checkout only uses what is in local storage
 				obj, has := localBefore[ptr.Oid]
+				if !has && c.refStore != nil {
+					// what a reference repository holds is available too
+					obj, has = c.refStore[ptr.Oid]
+				}
 				if has && !bytes.Equal(a.data, obj) {
-					c.Violation("working-file-wrong", "git lfs checkout left %s with %d bytes although %s is in local storage", p, len(a.data), ptr.Oid[:12])
+					c.Violation("working-file-wrong", "git lfs checkout left %s with %d bytes although %s is in local storage (or in the reference repository's)", p, len(a.data), ptr.Oid[:12])
 					return
 				}
 				// (not local before: the index update's clean filter may have
@@ -462,12 +504,13 @@ func c04Op(c *Ctx, w *World, h *Hist, u2 string, faults bool) {
 				continue
 			}
 			if !f.allows(p) {
+				// it was the recorded pointer before the command and is not
+				// selected: it remains that pointer
 				if !bytes.Equal(a.data, b.data) {
-					if obj, has := local[ptr.Oid]; !(has && bytes.Equal(a.data, obj)) {
-						c.Violation("skipped-file-not-a-pointer", "%v: excluded %s is neither its pointer nor its content", args, p)
-						return
-					}
+					c.Violation("skipped-file-not-a-pointer", "%v: %s is excluded (effective include %v, exclude %v) and was its pointer before the command, but now holds %d other bytes", args, p, f.inc, f.exc, len(a.data))
+					return
 				}
+				c.Probe("excluded-pointer-untouched")
 				continue
 			}
 			obj, has := local[ptr.Oid]
